@@ -49,4 +49,8 @@ CASES = [
      "edits": [(P, "        opt = self._linked_copy()\n        opt.circuit = pu.optimize_circuit(self.circuit)", "        opt = self._linked_copy()\n        new_circuit = pu.optimize_circuit(self.circuit)\n        opt.circuit = new_circuit")]},
     {"id": "twin-reset-order", "expect": "silent",
      "edits": [(E, "        self.samples = None\n        self.samples_dict = None\n", "        self.samples_dict = None\n        self.samples = None\n")]},
+    {"id": "blackbird-args-aliased", "expect": "fire", "key": "C09.alias-write",
+     "edits": [("io/blackbird_io.py", 'op["args"] = list(cmd.op.p)', 'op["args"] = cmd.op.p')]},
+    {"id": "twin-blackbird-args-copied-otherwise", "expect": "silent",
+     "edits": [("io/blackbird_io.py", 'op["args"] = list(cmd.op.p)', 'op["args"] = cmd.op.p[:]')]},
 ]
